@@ -2,11 +2,11 @@
 
 
 def _c01_case(c):
-    # the last field of a case line is rp=<stream>:<genseed>:<nodes>:<latency seed>; the case is regenerable
+    # the last field of a case line is rp=<stream>:<genseed>:<thorough 0|1>:<latency seed>; the case is regenerable
     for f in c.split(" "):
         if f.startswith("rp="):
             p = f[3:].split(":")
-            return {"stream": p[0], "genseed": p[1], "thorough": "1" if int(p[2]) > 20 else "0"}
+            return {"stream": p[0], "genseed": p[1], "thorough": p[2]}
     return {"raw": c[:2000]}
 
 
